@@ -524,6 +524,12 @@ func (o *w1Oracle) checkBody(w *w1World, rec *w1Rec) (fails []w1Fail) {
 			fail("unknown_contribution", "marker", "contains the marker of %v, which never crossed the wire", at)
 			return
 		}
+		if strings.HasPrefix(p.decodeErr, "key twice in one agent bucket") {
+			// the agent itself kept two items for one key: the aggregator then receives (and may insert) the
+			// key's contribution in parts
+			fail("duplicate_key_in_agent_bucket", "payload", "payload of %v: %s", at, p.decodeErr)
+			return
+		}
 		if p.decodeErr != "" {
 			fail("undecodable_payload", "payload", "payload of %v: %s", at, p.decodeErr)
 			return
